@@ -27,15 +27,16 @@ def _lock_decorators(ck, module):
     for name, fi in module.functions.items():
         if len(fi.params) != 1:
             continue
-        inner = [n for n in fi.node.body if isinstance(n, (ast.FunctionDef,))]
-        rets = [n for n in fi.node.body if isinstance(n, ast.Return)]
+        top = A.sig_stmts(fi.node.body)
+        inner = [n for n in top if isinstance(n, (ast.FunctionDef,))]
+        rets = [n for n in top if isinstance(n, ast.Return)]
         if len(inner) != 1 or len(rets) != 1 or A.norm(rets[0].value) != inner[0].name:
             continue
         w = inner[0]
-        body = [s for s in w.body if not (isinstance(s, ast.Expr) and isinstance(s.value, ast.Constant))]
+        body = A.sig_stmts(w.body)
         if len(body) == 1 and isinstance(body[0], ast.With) and len(body[0].items) == 1:
             lk = self_attr(body[0].items[0].context_expr)
-            wb = body[0].body
+            wb = A.sig_stmts(body[0].body)
             if lk and len(wb) == 1 and isinstance(wb[0], ast.Return) and isinstance(wb[0].value, ast.Call) \
                     and A.norm(wb[0].value.func) == fi.params[0] and wb[0].value.args and A.norm(wb[0].value.args[0]) == "self":
                 out[name] = lk
